@@ -6,8 +6,8 @@ creator call … anywhere in the file changes the table and breaks the tie, whet
 hook sits at that place.
 
 Tokens (in the order they occur in the function body, comments / strings / verif-hook statements removed):
-  lockCached            `cached_env.lock()`
-  lockHandle            any other `.lock()`                (the notifier mutex)
+  lockCached.<m>        `cached_env.lock().<m>(`            <m> = how the LockResult is consumed; `unwrap`
+  lockHandle.<m>        any other `.lock().<m>(`            means a poisoned mutex panics (notifier mutex)
   upgrade               `self.handle()` / `.upgrade()`     (weak -> strong; None = dead notifier)
   flag=true|false       `should_reload = <literal>`
   flag=<expr>           any other assignment / `mem::take`/`replace`/`swap` on `should_reload`
@@ -33,8 +33,8 @@ from extract_tables import item, read, lean_str
 SRC = "minijinja-autoreload/src/lib.rs"
 
 TOKENS = [
-    ("lockCached", r"cached_env\s*\.\s*lock\s*\(\)"),
-    ("lockHandle", r"\.\s*lock\s*\(\)"),
+    ("lockCached", r"cached_env\s*\.\s*lock\s*\(\)(?:\s*\.\s*(\w+))?"),
+    ("lockHandle", r"\.\s*lock\s*\(\)(?:\s*\.\s*(\w+))?"),
     ("upgrade", r"self\s*\.\s*handle\s*\(\)|\.\s*upgrade\s*\(\)"),
     ("flagTake", r"(?:take|replace|swap)\s*\(\s*&mut\s+[^;]*?\bshould_reload\b(?!_)"),
     ("flagAssign", r"\.\s*should_reload\s*=(?!=)\s*(true\b|false\b)?"),
@@ -153,6 +153,9 @@ def _tokens(body):
                 tok = "flag=<expr>"
             elif name == "fastAssign":
                 tok = "fast=" + (m.group(1) if m.group(1) in ("true", "false", "yes") else "<expr>")
+            elif name in ("lockCached", "lockHandle"):
+                # how the LockResult is consumed: `.unwrap()` = a poisoned mutex panics
+                tok = name + "." + (m.group(1) or "<unconsumed>")
             elif name == "call":
                 tok = "call:" + m.group(1)
             else:
